@@ -614,3 +614,125 @@ func sameGlobal(v ssa.Value, g *ssa.Global) bool {
 	}
 	return x.Name() == g.Name() && x.Pkg != nil && g.Pkg != nil && x.Pkg.Pkg.Path() == g.Pkg.Pkg.Path()
 }
+
+// withSenders returns fn, its closures and the Send methods of the concrete sender objects
+// that fn hands to a connection's Write: what a reply function writes is decided in that
+// code, whether it is a func literal converted to SenderFunc or a named sender type.
+func withSenders(p *Prog, fn *ssa.Function) []*ssa.Function {
+	out := withClosures(fn)
+	seen := map[*ssa.Function]bool{}
+	for _, f := range out {
+		seen[f] = true
+	}
+	for _, f := range withClosures(fn) {
+		eachCall(f, func(c ssa.CallInstruction) {
+			if !isConnWrite(c) || len(c.Common().Args) < 2 {
+				return
+			}
+			for _, o := range origins(c.Common().Args[1]) {
+				t := o.Type()
+				if mi, ok := o.(*ssa.MakeInterface); ok {
+					t = mi.X.Type()
+				}
+				if _, isIface := t.Underlying().(*types.Interface); isIface {
+					continue
+				}
+				ms := p.SSA.MethodSets.MethodSet(t)
+				for i := 0; i < ms.Len(); i++ {
+					sel := ms.At(i)
+					if sel.Obj().Name() != "Send" {
+						continue
+					}
+					m := p.SSA.MethodValue(sel)
+					if m == nil || !p.InRepo(m) {
+						continue
+					}
+					// synthetic wrappers (pointer receiver for a value method) delegate to the declared method
+					if m.Synthetic != "" {
+						eachCall(m, func(cc ssa.CallInstruction) {
+							if callee := cc.Common().StaticCallee(); callee != nil && callee.Name() == "Send" && p.InRepo(callee) {
+								m = callee
+							}
+						})
+					}
+					for _, g := range withClosures(m) {
+						if !seen[g] {
+							seen[g] = true
+							out = append(out, g)
+						}
+					}
+				}
+			}
+		})
+	}
+	return out
+}
+
+// senderFieldSource maps a value read inside a sender type's Send method from a field of the
+// sender object to the value that the reply function stored into that field when it built
+// the object (nil when v is not such a read).
+func senderFieldSource(replyFn *ssa.Function, v ssa.Value) ssa.Value {
+	f, base := loadedField(v)
+	if f == nil || base == nil {
+		return nil
+	}
+	// base: the Send method's receiver (value receivers are spilled to a local)
+	isRecv := false
+	for _, o := range origins(base) {
+		switch x := o.(type) {
+		case *ssa.Parameter:
+			if len(x.Parent().Params) > 0 && x.Parent().Params[0] == x {
+				isRecv = true
+			}
+		case *ssa.Alloc:
+			if x.Comment != "" && len(x.Parent().Params) > 0 && x.Comment == x.Parent().Params[0].Name() {
+				isRecv = true
+			}
+		}
+	}
+	if !isRecv {
+		return nil
+	}
+	owner := namedOf(base.Type())
+	if owner == nil {
+		return nil
+	}
+	for _, lit := range structLits(replyFn, func(t types.Type) bool { return namedOf(t) == owner }) {
+		if val, ok := lit[f.Name()]; ok {
+			return val
+		}
+	}
+	return nil
+}
+
+// originsInter is origins() that also steps from a parameter of a private helper (a function
+// with only static call sites) to the arguments passed at those sites.
+func originsInter(p *Prog, v ssa.Value, depth int) []ssa.Value {
+	var out []ssa.Value
+	for _, o := range origins(v) {
+		par, ok := o.(*ssa.Parameter)
+		if !ok || depth == 0 {
+			out = append(out, o)
+			continue
+		}
+		fn := par.Parent()
+		idx := -1
+		for i, q := range fn.Params {
+			if q == par {
+				idx = i
+			}
+		}
+		sites, only := p.staticCallSites(fn)
+		if idx < 0 || !only || len(sites) == 0 {
+			out = append(out, o)
+			continue
+		}
+		for _, cs := range sites {
+			args := cs.Common().Args
+			if idx < len(args) {
+				out = append(out, originsInter(p, args[idx], depth-1)...)
+			}
+		}
+	}
+	return out
+}
